@@ -1,5 +1,6 @@
 import MetricsVerif.Driver.Util
 import MetricsVerif.Model.Bucket
+import MetricsVerif.Model.BucketGhost
 
 namespace MetricsVerif.Driver.Bucket
 open MetricsVerif.Driver MetricsVerif.Bucket
@@ -30,8 +31,22 @@ def grant (s : Sys) (tid : Nat) : Sys :=
   | some t => (match t.pc with | .cCas _ => step s1 tid | _ => s1)
   | none => s1
 
+/-- the model schedule behind a granted schedule: the thread id twice where `grant` takes the clear's CAS step -/
+def expand (s : Sys) (sched : List Nat) : List Nat :=
+  (sched.foldl (fun (acc : Sys × List Nat) tid =>
+      let s1 := step acc.1 tid
+      match s1.threads[tid]? with
+      | some t => (match t.pc with | .cCas _ => (step s1 tid, acc.2 ++ [tid, tid]) | _ => (s1, acc.2 ++ [tid]))
+      | none => (s1, acc.2 ++ [tid])) (s, [])).2
+
 def handle (args : List String) : Option String :=
   match args with
+  | ["k1", b, progs, sched] => do
+    -- number of K1 steps (slot claims landing on an already detached block, `Model/BucketGhost.lean`) of the run
+    let b ← b.toNat?
+    let progs ← listTok progTok progs
+    let sched ← schedTok sched
+    pure s!"k1={k1Fold (init b progs) own0 0 (expand (init b progs) sched)}"
   | ["run", b, progs, sched] => do
     let b ← b.toNat?
     let progs ← listTok progTok progs
